@@ -45,7 +45,7 @@ Definition ref_table : list ref_entry := [
   mk_ref "Linear"          alld     0    nopar (SCconst 1) ShPoly 0;
   mk_ref "Power"           alld     0    (PMmax (199#100)) (SCconst 1) ShOpaque 273655749824194;
   mk_ref "Order-1 G.C."    alld     0    nopar (SCconst 1) ShPoly 0;
-  mk_ref "Spline G.C."     alld     1    nopar (SCconst 1) ShOpaque 257943052984720;
+  mk_ref "Spline G.C."     alld     1    nopar (SCconst 1) ShOpaque 219144259816342;
   mk_ref "Order-3 G.C."    alld     1    nopar (SCconst 1) ShPoly 0;
   mk_ref "Order-5 G.C."    alld     2    nopar (SCconst 1) ShPoly 0;
   mk_ref "Cosinus"         (upto 1) (-1) nopar (SCconst 1) ShOpaque 276226093259959;
@@ -53,16 +53,15 @@ Definition ref_table : list ref_entry := [
   (* exp(-h) cos(b h): valid in R^1 for every b; in R^2 iff b <= 1, in R^3 iff b <= 1/sqrt 3 (b = 2 pi / param) *)
   mk_ref "Cosexp"          (upto 1) (-1) PMunbounded (SCconst (2995732#1000000)) ShOpaque 126247278464172;
   mk_ref "1-D Regularized" (upto 1) (-1) nopar (SCconst 2) ShPoly 0;
-  (* the closed form of CovPenta.cpp is, verbatim, the one of CovReg1D.cpp (lemma penta_is_reg1d), not the
-     pentaspherical model 1 - 15/8 h + 5/4 h^3 - 3/8 h^5 (valid in R^3): its reference is therefore R^1 *)
-  mk_ref "Penta"           (upto 1) (-1) nopar (SCconst 1) ShPoly 0;
+  (* pentaspherical model 1 - 15/8 h + 5/4 h^3 - 3/8 h^5: valid up to R^3 *)
+  mk_ref "Penta"           (upto 3) (-1) nopar (SCconst 1) ShPoly 0;
   mk_ref "Storkey"         (upto 1) (-1) nopar (SCconst 1) ShOpaque 126626720844775;
   mk_ref "Wendland-2,0"    (upto 3) (-1) nopar (SCconst 1) ShPoly 0;
   mk_ref "Wendland-3,1"    (upto 3) (-1) nopar (SCconst 1) ShPoly 0;
   mk_ref "Wendland-4,2"    (upto 3) (-1) nopar (SCconst 1) ShPoly 0;
-  (* no reference entered (generalised covariance of the "order-2 spline", spectral / sphere-only structures) *)
-  {| r_name := "Spline-2 G.C."; r_known := false; r_maxdim := None; r_minorder := -1; r_parmax := nopar;
-     r_scadef := SCconst 1; r_shape := ShOpaque; r_hash := 220679090864848; r_onRn := true |};
+  (* -(h^4 log h + ...): generalised covariance of order 2 (Chiles-Delfiner 4.5.5: (-1)^(k+1) h^(2k) log h) *)
+  mk_ref "Spline-2 G.C."   alld     2    nopar (SCconst 1) ShOpaque 205745297379148;
+  (* no reference entered (spectral / sphere-only structures: not offered on R^n) *)
   {| r_name := "Markov"; r_known := false; r_maxdim := None; r_minorder := -1; r_parmax := PMmax 1000;
      r_scadef := SCsqrt12ncoeffs; r_shape := ShNone; r_hash := 0; r_onRn := false |};
   {| r_name := "Geometric"; r_known := false; r_maxdim := None; r_minorder := -1; r_parmax := nopar;
@@ -132,10 +131,11 @@ Definition failures (e : cov_entry) : list Z :=
       (if chk_form e r then [] else [5%Z]) ++ (if chk_param e r then [] else [6%Z])
   end.
 
-(* the discrepancies between the pinned tree and the reference that are reported as FINDINGS (each is confirmed
-   on the implementation by a point set with a negative eigenvalue / a non-zero value beyond the range) *)
+(* the discrepancies between the tree and the reference that are reported as FINDINGS (confirmed on the
+   implementation by a point set with a negative eigenvalue).  Penta, Cosexp and Cardinal Sine left this list with
+   fixes C03_1 / C03_2; J-Bessel (parameter below (d-2)/2 accepted) is a known finding *)
 Definition known_discrepancies : list (string * Z) :=
-  [("Penta", 1%Z); ("Penta", 3%Z); ("Cosexp", 1%Z); ("J-Bessel", 1%Z); ("Cardinal Sine", 1%Z)].
+  [("J-Bessel", 1%Z)].
 
 Definition allowed (name : string) (code : Z) : bool :=
   existsb (fun p => String.eqb name (fst p) && Z.eqb code (snd p)) known_discrepancies.
